@@ -5,7 +5,9 @@ CONSTANTS
   Workers = {w1, w2}
   WithBackend = TRUE
   FailFast = FALSE
+  QueueCap = 1
+  SkipWhenFull = FALSE
   Recheck = TRUE
-INVARIANTS InvExact InvFailFast
+INVARIANTS InvExact InvFailFast InvQueueBounded
 PROPERTY Terminates
 CHECK_DEADLOCK FALSE
